@@ -22,8 +22,10 @@
      is that post-order traversal with the decoder's mutable attribute self.problem threaded through.
    * Python values that the decoder can return are [pval] = JSON values + Solution objects.
    * Object identity of the Problem a solution points to is the tag [p_origin].
-   * A constraint declaration is its op string ("<=0.5"); what Constraint.__init__ makes of the string
-     (operator, threshold: regex + float(), property C11) is the section variable [cparse].
+   * A constraint declaration [cdecl] is its op string ("<=0.5") - what Constraint.__init__ makes of the string
+     (operator, threshold: regex + float(), property C11) is the section variable [cparse] - or a callable
+     (Constraint(function): any non-zero return value is a violation), identified by a key whose behaviour on
+     floats is the section variable [cfun].  A callable has no text: the encoder raises TypeError for it.
    * Float values: [fv : F -> option xq] gives the exact value of a float token, [None] = NaN.
      Violations are computed in exact arithmetic on Q + {-inf,+inf} (+ NaN as None); rounding of
      abs(x-y)+delta and of the sum is not modelled (the correspondence compares zero-ness always and
@@ -175,9 +177,12 @@ Section Json.
   Variable F : Type.                                   (* float objects *)
   Variable fv : F -> option xq.                        (* exact value; None = NaN *)
   Variable cparse : string -> option (js_cop * xq).       (* Constraint(op string): operator, float(threshold); None = PlatypusError *)
+  Variable cfun : Z -> js_fval -> js_fval.                (* Constraint(callable k): the callable's value on a float (None = NaN) *)
   Notation jv := (jvalue F).
 
   Inductive direction := Minimize | Maximize.
+  (* Constraint.op: the declaration text, or the callable itself (core.py:498-523) *)
+  Inductive cdecl := DOp (s : string) | DFun (k : Z).
   (* which Problem object: the one the caller holds / the decoder's placeholder (io.py:134) /
      the one the repaired hook rebuilds from the saved definition (io.py:119) *)
   Inductive porigin := Supplied | Placeholder | Rebuilt.
@@ -189,12 +194,12 @@ Section Json.
     p_function : option string;      (* getattr(problem.function, "__name__", None) *)
     p_types : list (option string);  (* str(type) ; None for an unset slot *)
     p_dirs : list direction;
-    p_cons : list string             (* Constraint.op *)
+    p_cons : list cdecl              (* the Constraint objects, by their .op *)
   }.
 
   (* Problem(nvars, nobjs, nconstrs)   core.py:168-175 *)
   Definition new_problem (o : porigin) (nv no nc : nat) : problem :=
-    mkProblem o "Problem" nv no nc None (repeat None nv) (repeat Minimize no) (repeat "==0"%string nc).
+    mkProblem o "Problem" nv no nc None (repeat None nv) (repeat Minimize no) (repeat (DOp "==0") nc).
 
   Record psol := mkSol {
     ps_prob : problem;
@@ -228,27 +233,33 @@ Section Json.
            ("objectives"%string, JArr (ps_objs s));
            ("constraints"%string, JArr (ps_cons s)) ].
 
+  (* Constraint -> obj.op (io.py:87-88); a callable op is handed back to json, which raises TypeError *)
+  Definition enc_decl (c : cdecl) : res jv :=
+    match c with DOp s => Ok (JStr s) | DFun _ => Err EType end.
+
   (* io.py:92-99 *)
-  Definition enc_problem (p : problem) : jv :=
-    JObj [ ("name"%string, JStr (p_name p));
+  Definition enc_problem (p : problem) : res jv :=
+    cs <- mapM enc_decl (p_cons p) ;;
+    Ok (JObj [ ("name"%string, JStr (p_name p));
            ("nvars"%string, JInt (Z.of_nat (p_nvars p)));
            ("nobjs"%string, JInt (Z.of_nat (p_nobjs p)));
            ("nconstrs"%string, JInt (Z.of_nat (p_nconstrs p)));
            ("function"%string, opt_str (p_function p));
            ("types"%string, JArr (map opt_str (p_types p)));
            ("directions"%string, JArr (map (fun d => JStr (dir_name d)) (p_dirs p)));
-           ("constraints"%string, JArr (map (fun c => JStr c) (p_cons p))) ].
+           ("constraints"%string, JArr cs) ]).
 
   (* io.py:89-100 *)
-  Definition enc_algo (a : algo) : jv :=
-    JObj [ ("algorithm"%string, JObj [ ("name"%string, JStr (a_name a)); ("nfe"%string, JInt (a_nfe a)) ]);
-           ("problem"%string, enc_problem (a_problem a));
-           ("result"%string, JArr (map enc_sol (a_result a))) ].
+  Definition enc_algo (a : algo) : res jv :=
+    pj <- enc_problem (a_problem a) ;;
+    Ok (JObj [ ("algorithm"%string, JObj [ ("name"%string, JStr (a_name a)); ("nfe"%string, JInt (a_nfe a)) ]);
+               ("problem"%string, pj);
+               ("result"%string, JArr (map enc_sol (a_result a))) ]).
 
-  Definition encode (x : saved) : jv :=
+  Definition encode (x : saved) : res jv :=
     match x with
-    | SvList l => JArr (map enc_sol l)
-    | SvArchive l => JArr (map enc_sol l)
+    | SvList l => Ok (JArr (map enc_sol l))
+    | SvArchive l => Ok (JArr (map enc_sol l))
     | SvAlgorithm a => enc_algo a
     end.
 
@@ -263,21 +274,24 @@ Section Json.
     end.
 
   (* abs(f(x)) for one (constraint, value) pair *)
-  Definition js_term (c : string) (x : jv) : res js_fval :=
-    match cparse c with
-    | None => Err EPlatypus
-    | Some (op, y) => v <- js_numval x ;; Ok (js_fabs (js_cfun op y v))
+  Definition js_term (c : cdecl) (x : jv) : res js_fval :=
+    match c with
+    | DOp s => match cparse s with
+               | None => Err EPlatypus
+               | Some (op, y) => v <- js_numval x ;; Ok (js_fabs (js_cfun op y v))
+               end
+    | DFun k => v <- js_numval x ;; Ok (js_fabs (cfun k v))
     end.
 
   (* sum([abs(f(x)) for (f, x) in zip(problem.constraints, solution.constraints)]) ; sum starts from 0
      and adds left to right; zip stops at the shorter list *)
-  Fixpoint js_terms (cs : list string) (xs : list jv) : res (list js_fval) :=
+  Fixpoint js_terms (cs : list cdecl) (xs : list jv) : res (list js_fval) :=
     match cs, xs with
     | c :: cs', x :: xs' => t <- js_term c x ;; ts <- js_terms cs' xs' ;; Ok (t :: ts)
     | _, _ => Ok []
     end.
   Definition js_sum (ts : list js_fval) : js_fval := fold_left js_fadd ts (Some xzero).
-  Definition js_viol (cs : list string) (xs : list jv) : res js_fval :=
+  Definition js_viol (cs : list cdecl) (xs : list jv) : res js_fval :=
     ts <- js_terms cs xs ;; Ok (js_sum ts).
 
   (* ---------------- FixedLengthArray  a[:] = value   (core.py:54-66, convert = None) ----------------
@@ -377,14 +391,14 @@ Section Json.
     end.
 
   (* Constraint.to_constraint on one element (core.py:538-543, 498-523) *)
-  Definition to_constraint (v : pval) : res string :=
+  Definition to_constraint (v : pval) : res cdecl :=
     match v with
-    | PStr s => match cparse s with Some _ => Ok s | None => Err EPlatypus end
+    | PStr s => match cparse s with Some _ => Ok (DOp s) | None => Err EPlatypus end
     | PList _ => Err EUnmodelled
     | PSol _ => Err EUnmodelled
     | _ => Err EType                      (* re.match(pattern, non-string) *)
     end.
-  Definition assign_cons (size : nat) (v : pval) : res (list string) :=
+  Definition assign_cons (size : nat) (v : pval) : res (list cdecl) :=
     match v with
     | PList l => cs <- mapM to_constraint l ;;
                  if Nat.eqb (List.length cs) size then Ok cs else Err EUnmodelled
@@ -498,11 +512,14 @@ Section Json.
     Variable jparse : T -> F.             (* json: float() / parse_constant *)
 
     (* json.dump(obj, fp, cls=_PlatypusJSONEncoder) / json.load(fp, cls=_PlatypusJSONDecoder, problem=problem) *)
-    Definition save_json (x : saved) : jvalue T := jmap jprint (encode x).
+    Definition save_json (x : saved) : res (jvalue T) := j <- encode x ;; Ok (jmap jprint j).
     Definition load_json_gen (old : bool) (supplied : option problem) (t : jvalue T) : res (option problem * pval) :=
       decode old supplied (jmap jparse t).
     Definition load_json := load_json_gen false.
     Definition load_json_old := load_json_gen true.
+    (* write, then read what was written (an exception while writing is the result) *)
+    Definition save_then_load (old : bool) (supplied : option problem) (x : saved) : res (option problem * pval) :=
+      t <- save_json x ;; load_json_gen old supplied t.
 
     (* ---- objectives file (io.py:33-76).  A file is a list of lines, a line the list of its
        whitespace-separated tokens; " ".join / "\n" / strip / split are not modelled.  A line without
@@ -557,4 +574,22 @@ Fixpoint ctab_lookup (tab : list (string * (js_cop * xq))) (s : string) : option
   match tab with
   | [] => None
   | (k, v) :: r => if String.eqb s k then Some v else ctab_lookup r s
+  end.
+
+(* Constraint(callable) for the correspondence: the driver's test callables, by shape and parameter t
+     0: lambda x: x - t      1: lambda x: t - x      2: lambda x: -abs(x)     3: lambda x: x
+     4: lambda x: min(0.0, x)                        5: lambda x: max(0.0, x - t)
+   (exact arithmetic; min/max as Python evaluates them: the first argument unless the second is smaller/larger) *)
+Definition js_shape (sh : Z) (t : xq) (x : js_fval) : js_fval :=
+  if sh =? 0 then js_fsub x t
+  else if sh =? 1 then match x with Some a => xadd t (xneg a) | None => None end
+  else if sh =? 2 then match js_fabs x with Some a => Some (xneg a) | None => None end
+  else if sh =? 3 then x
+  else if sh =? 4 then (if js_fltb x xzero then x else Some xzero)
+  else let d := js_fsub x t in if js_fgtb d xzero then d else Some xzero.
+(* key -> (shape, t); an unknown key answers NaN *)
+Fixpoint ftab_lookup (tab : list (Z * (Z * xq))) (k : Z) : js_fval -> js_fval :=
+  match tab with
+  | [] => fun _ => None
+  | (k', (sh, t)) :: r => if k =? k' then js_shape sh t else ftab_lookup r k
   end.
